@@ -237,13 +237,22 @@ pub fn execute(
     let vars = make_globals(globals, &|_| None);
     let flag = CountingFlag::new(opts.poll_limit);
     let r = catch(|| {
-        let mut config = ExecutionConfig::new(functions, &vars).lazy(opts.lazy);
+        // the two builder methods commute: which one is called first follows the parity of the
+        // source length (deterministic per case, both orders across cases)
+        let mut config = ExecutionConfig::new(functions, &vars);
+        let debug_first = source.len() % 2 == 1;
+        if !debug_first {
+            config = config.lazy(opts.lazy);
+        }
         if let Some((l, v, m)) = opts.debug_attrs {
             config = config.debug_attributes(
                 Identifier::from(l),
                 Identifier::from(v),
                 Identifier::from(m),
             );
+        }
+        if debug_first {
+            config = config.lazy(opts.lazy);
         }
         match file.execute(tree, source, &config, &flag) {
             Ok(graph) => match observe_graph(&graph, ti) {
